@@ -56,8 +56,14 @@ def main(argv=None):
         rc = ctx.finish(write_evidence=False)
         print('replay: %s' % ('violation reproduced' if rc else 'no violation on this tree'))
         return rc
+    real_stdout = sys.stdout
     try:
-        mod.run(ctx)
+        # the library has stray print() calls (e.g. Inference.ll_per_bin); keep them off the verdict channel
+        sys.stdout = open(os.devnull, 'w')
+        try:
+            mod.run(ctx)
+        finally:
+            sys.stdout = real_stdout
     except Exception:
         traceback.print_exc()
         print('HARNESS-ERROR: check %s crashed' % args.pid, flush=True)
